@@ -1,3 +1,138 @@
 package main
 
-func cmdSelftest(args []string) int { return 0 }
+// symgo selftest: interpreter conformance. Every function of verif/symgo/conform is run natively and through the
+// interpreter (constant arguments, and solver variables pinned to the same values) and the results are compared.
+
+import (
+	"fmt"
+	"os"
+	"sort"
+
+	"golang.org/x/tools/go/packages"
+	"golang.org/x/tools/go/ssa"
+	"golang.org/x/tools/go/ssa/ssautil"
+
+	"verif/symgo/conform"
+)
+
+func cmdSelftest(args []string) int {
+	dir := os.Getenv("VERIF_ENGINE_DIR")
+	if dir == "" {
+		dir = verifDir + "/engine"
+	}
+	cfg := &packages.Config{
+		Mode: packages.NeedName | packages.NeedFiles | packages.NeedCompiledGoFiles | packages.NeedImports | packages.NeedDeps | packages.NeedTypes | packages.NeedSyntax | packages.NeedTypesInfo | packages.NeedTypesSizes | packages.NeedModule,
+		Dir:  dir,
+		Env:  goEnv(),
+	}
+	pkgs, err := packages.Load(cfg, "verif/symgo/conform")
+	if err != nil || len(pkgs) == 0 || len(pkgs[0].Errors) > 0 {
+		fmt.Println("selftest: cannot load the conformance package:", err)
+		return 2
+	}
+	prog, spkgs := ssautil.AllPackages(pkgs, ssa.InstantiateGenerics)
+	prog.Build()
+	eng := &Engine{prog: prog, stubs: buildStubs(), pkgByPath: map[string]*ssa.Package{}, opts: defaultOptions()}
+	for _, p := range prog.AllPackages() {
+		eng.pkgByPath[p.Pkg.Path()] = p
+	}
+	cp := spkgs[0]
+	// the map literal's closures are the anonymous functions of the package initialiser, in source order = key order
+	// of the literal; resolve them by interpreting the initialiser and reading the map
+	sol, err := NewSolver(eng.opts.SolverBin, eng.opts.TimeoutMs, nil)
+	if err != nil {
+		fmt.Println("selftest: solver:", err)
+		return 2
+	}
+	defer sol.Close()
+	var names []string
+	for n := range conform.Funcs {
+		names = append(names, n)
+	}
+	sort.Strings(names)
+	inputs := [][2]uint64{{0, 0}, {1, 2}, {7, 3}, {255, 256}, {1 << 31, 1<<31 - 1}, {^uint64(0), 1}, {1 << 63, ^uint64(0)}, {12345678901234567, 98765}, {6, 10}, {100, 35}}
+	seed := uint64(0x9E3779B97F4A7C15)
+	for i := 0; i < 6; i++ {
+		seed ^= seed << 13
+		seed ^= seed >> 7
+		seed ^= seed << 17
+		inputs = append(inputs, [2]uint64{seed, seed * 0xD1342543DE82EF95})
+	}
+	fails, runs := 0, 0
+	for _, name := range names {
+		for _, in := range inputs {
+			want := conform.Funcs[name](in[0], in[1])
+			for mode := 0; mode < 2; mode++ {
+				if mode == 1 && (name == "strings" || name == "strconv_rt") {
+					// formatting a symbolic number is a contract stub (opaque text), not a conformance subject
+					continue
+				}
+				runs++
+				got, err := selftestRun(eng, sol, cp, name, in, mode == 1)
+				if err != nil {
+					fails++
+					fmt.Printf("selftest FAIL %s(%d,%d) mode=%d: %v\n", name, in[0], in[1], mode, err)
+					continue
+				}
+				if got != want {
+					fails++
+					fmt.Printf("selftest FAIL %s(%d,%d) mode=%d: interpreter %d, native %d\n", name, in[0], in[1], mode, got, want)
+				}
+			}
+		}
+	}
+	fmt.Printf("selftest: %d functions, %d runs, %d failures\n", len(names), runs, fails)
+	if fails > 0 {
+		return 2
+	}
+	return 0
+}
+
+func selftestRun(eng *Engine, sol *Solver, cp *ssa.Package, name string, in [2]uint64, symbolic bool) (res uint64, err error) {
+	sol.Reset()
+	ex := NewExec(eng, sol, "selftest."+name, nil)
+	ex.entryPkg = cp
+	defer func() {
+		if r := recover(); r != nil {
+			err = fmt.Errorf("%v", r)
+		}
+	}()
+	g := cp.Var("Funcs")
+	mv, _ := (*ex.globalAddr(g)).(*MapV)
+	if mv == nil {
+		return 0, fmt.Errorf("Funcs map not initialised")
+	}
+	e := ex.mapFind(mv, ex.mkStr(name))
+	if e == nil {
+		return 0, fmt.Errorf("function not found in map")
+	}
+	var a, b *Term
+	if symbolic {
+		a, b = ex.tc.Var(64, "sa"), ex.tc.Var(64, "sb")
+		ex.addPC(ex.tc.Eq(a, ex.tc.Const(64, in[0])))
+		ex.addPC(ex.tc.Eq(b, ex.tc.Const(64, in[1])))
+	} else {
+		a, b = ex.tc.Const(64, in[0]), ex.tc.Const(64, in[1])
+	}
+	out := ex.call(nil, *e.v, []Value{a, b}, 0)
+	t, ok := out.(*Term)
+	if !ok {
+		return 0, fmt.Errorf("result is %T", out)
+	}
+	if t.IsConst() {
+		return t.val, nil
+	}
+	// the value must be determined by the pinned inputs: ask the solver for it and check uniqueness
+	if sol.CheckSat() != Sat {
+		return 0, fmt.Errorf("path condition unsatisfiable")
+	}
+	sol.Define(t)
+	v, gerr := sol.getTermValue(t)
+	if gerr != nil {
+		return 0, gerr
+	}
+	if sol.CheckWith(ex.tc.Not(ex.tc.Eq(t, ex.tc.Const(64, v)))) != Unsat {
+		return 0, fmt.Errorf("result not determined by the inputs")
+	}
+	return v, nil
+}
